@@ -30,13 +30,37 @@ theorem encode_hands_off_request (p : Params) (x : Frame) (v : Int × Int × Int
     encodeRouteFull p x = .ok v ↔ AcceptSpec (Req.of p x) v.1 ∧ HandOff (Req.of p x) v :=
   routeFull_iff (Req.of p x) v
 
+/- Full statement (does NOT hold on the current code, see `counterexample_bits_allocated_12`):
+   accepted_is_representable : encodeRoute p x = .ok r → p.ts ≠ rle → Representable p x -/
 /-- Accepted ⇒ representable as a DICOM pixel data element (1 or 3 samples with a fitting photometric
 interpretation, planar configuration iff colour, bits stored within bits allocated, and for native
-frames: cell width and signedness equal to the array's, single-bit frames filling whole bytes).
-RLE is excluded here only because `encode_frame` leaves those checks to pydicom's RLE encoder. -/
-theorem accepted_is_representable (p : Params) (x : Frame) (r : Int) (h : encodeRoute p x = .ok r)
-    (hrle : p.ts ≠ rle) : Representable p x :=
-  representable_of_accepted p x r h hrle
+frames: cell width and signedness equal to the array's, samples within the stored bits, single-bit frames
+filling whole bytes).  Partial: a bits-allocated value that is neither 1 nor a multiple of 8 is excluded
+(open finding C07-bits-allocated-not-byte-multiple).  RLE is excluded only because `encode_frame` leaves
+those checks to pydicom's RLE encoder. -/
+theorem accepted_is_representable_partial (p : Params) (x : Frame) (r : Int) (h : encodeRoute p x = .ok r)
+    (hrle : p.ts ≠ rle) (hal : p.bitsAllocated = 1 ∨ p.bitsAllocated % 8 = 0) : Representable p x :=
+  representable_of_accepted p x r h hrle hal
+
+/-- **Open finding C07-bits-allocated-not-byte-multiple**: 12 bits allocated over uint16 cells (what `SCImage` passes
+for `bits_allocated=12`) is accepted by the native route although PS3.5 8.1.1 allows only 1 or multiples of 8; the
+bytes cannot be decoded with the same parameters (pydicom refuses the data set). -/
+theorem counterexample_bits_allocated_12 (c : CodecImpl) (conv : List Int → List Int) :
+    encodeFrame c ⟨"1.2.840.10008.1.2.1", 12, 12, "MONOCHROME2", 0, none⟩ ⟨1, 2, none, .u16, [1, 4095]⟩ = .ok [1, 0, 255, 15] ∧
+    decodeFrame c conv ⟨"1.2.840.10008.1.2.1", 12, 12, "MONOCHROME2", 0, none⟩ 1 2 1 [1, 0, 255, 15] = .error .value ∧
+    ¬ Representable ⟨"1.2.840.10008.1.2.1", 12, 12, "MONOCHROME2", 0, none⟩ ⟨1, 2, none, .u16, [1, 4095]⟩ := by
+  refine ⟨?_, ?_, ?_⟩
+  · have hf : encodeRouteFull ⟨"1.2.840.10008.1.2.1", 12, 12, "MONOCHROME2", 0, none⟩ ⟨1, 2, none, .u16, [1, 4095]⟩ =
+        .ok (2, 1, 2, 1, 12, 12, 0) := by rfl
+    unfold encodeFrame; rw [hf]; rfl
+  · have hr : decodeFrameRoute (isEncapsulated "1.2.840.10008.1.2.1") 12 ((1 : Nat) : Int) "MONOCHROME2" 0 none = .ok 2 := by decide
+    unfold decodeFrame
+    simp only [hr, bind, Except.bind]
+    have h21 : ¬ ((2 : Int) = 1) := by decide
+    simp only [h21, ↓reduceIte]
+    exact pydicomNative_refuses_allocated conv _ 1 2 1 _ (by decide)
+  · intro h
+    rcases h.allocated with h1 | h1 <;> revert h1 <;> decide
 
 /-! ## rejects what it cannot encode -/
 
@@ -50,10 +74,10 @@ theorem refused_yields_no_bytes (c : CodecImpl) (p : Params) (x : Frame) (e : Er
     (h : encodeRoute p x = .error e) : encodeFrame c p x = .error e :=
   encodeFrame_refused c p x e h
 
-/-- Native: an array whose items are not exactly `bits_allocated` bits wide is refused
+/-- Native: an array whose items are not `ceil(bits_allocated / 8)` bytes wide is refused
 (uint16 data declared as 8 bit, uint8 data declared as 16 bit, ...). -/
 theorem refuses_cell_width_mismatch (p : Params) (x : Frame) (hts : p.ts ∈ nativeSyntaxes)
-    (hba : p.bitsAllocated ≠ 1) (hw : (x.dtype.itemsize : Int) * 8 ≠ p.bitsAllocated) :
+    (hba : p.bitsAllocated ≠ 1) (hw : (x.dtype.itemsize : Int) ≠ (p.bitsAllocated + 7) / 8) :
     ∃ e, encodeRoute p x = .error e := by
   rw [refused_iff]; rintro ⟨r, _, hs⟩
   have : p.ts = "1.2.840.10008.1.2" ∨ p.ts = "1.2.840.10008.1.2.1" := by simpa [nativeSyntaxes] using hts
@@ -177,13 +201,14 @@ theorem native_bits_roundtrip (c : CodecImpl) (conv : List Int → List Int) (p 
 stored and **every content** -- whatever is accepted has all samples within the stored bits, and
 `decode_frame (encode_frame x) = x`, and pydicom's decode of the bytes as a one-frame image is `x` as
 well.  Partial: photometric interpretations that pydicom converts to RGB while decoding (`YBR_FULL`
-with 3 samples) are excluded -- exactly the region of the open finding C07-ybr-full-decoded-as-rgb. -/
+with 3 samples) are excluded -- exactly the region of the open finding C07-ybr-full-decoded-as-rgb -- and so are
+bits-allocated values that are not a multiple of 8 (`counterexample_bits_allocated_12`). -/
 theorem native_cells_roundtrip_partial (c : CodecImpl) (conv : List Int → List Int) (p : Params) (x : Frame)
     (bytes : List Nat) (hwf : x.WF) (hts : p.ts ∈ nativeSyntaxes) (hba : p.bitsAllocated ≠ 1)
-    (hnc : convertsColour p.pi x.spp = false) (henc : encodeFrame c p x = .ok bytes) :
+    (hmul : p.bitsAllocated % 8 = 0) (hnc : convertsColour p.pi x.spp = false) (henc : encodeFrame c p x = .ok bytes) :
     decodeFrame c conv p x.rows x.cols x.spp bytes = .ok x.data ∧
     pydicomNative conv p x.rows x.cols x.spp bytes = .ok x.data := by
-  have := (native_cells_decode c conv p x bytes hwf hts hba henc).2
+  have := (native_cells_decode c conv p x bytes hwf hts hba hmul henc).2
   simpa [hnc] using this
 
 /-- **Every sample of an accepted frame fits the stored bits** -- natively by `encode_frame`'s own check (against the
@@ -191,9 +216,10 @@ smallest and largest sample when fewer bits are stored than allocated, by the dt
 routes because the encoder validates the frame against the parameters it is handed (`Validating`, exercised on
 the real pydicom encoders) and is handed the request's own bits stored (`encode_hands_off_request`). -/
 theorem accepted_samples_fit_stored (c : CodecImpl) (hv : c.Validating) (p : Params) (x : Frame) (bytes : List Nat)
-    (hwf : x.WF) (hba : p.bitsAllocated ≠ 1) (henc : encodeFrame c p x = .ok bytes) : FitsStored p x := by
+    (hwf : x.WF) (hba : p.bitsAllocated ≠ 1) (hmul : p.bitsAllocated % 8 = 0) (henc : encodeFrame c p x = .ok bytes) :
+    FitsStored p x := by
   by_cases hts : p.ts ∈ nativeSyntaxes
-  · exact (native_cells_decode c id p x bytes hwf hts hba henc).1
+  · exact (native_cells_decode c id p x bytes hwf hts hba hmul henc).1
   · obtain ⟨r, hr, hb⟩ := encodeFrame_ok c p x bytes henc
     have hs := route_sound (Req.of p x) r (by rw [← encodeRoute_eq]; exact hr)
     rcases hb with ⟨h1, _⟩ | ⟨_, h2, _⟩ | ⟨_, _, hcodec⟩
@@ -233,9 +259,9 @@ syntaxes and by RLE, stored as given, but `decode_frame` returns it converted to
 on which that conversion is not the identity the round trip fails. -/
 theorem ybr_full_decodes_converted (c : CodecImpl) (conv : List Int → List Int) (p : Params) (x : Frame)
     (bytes : List Nat) (hwf : x.WF) (hts : p.ts ∈ nativeSyntaxes) (hba : p.bitsAllocated ≠ 1)
-    (hpi : p.pi = "YBR_FULL") (h3 : x.spp = 3) (henc : encodeFrame c p x = .ok bytes) :
+    (hmul : p.bitsAllocated % 8 = 0) (hpi : p.pi = "YBR_FULL") (h3 : x.spp = 3) (henc : encodeFrame c p x = .ok bytes) :
     decodeFrame c conv p x.rows x.cols x.spp bytes = .ok (conv x.data) := by
-  have := (native_cells_decode c conv p x bytes hwf hts hba henc).2.1
+  have := (native_cells_decode c conv p x bytes hwf hts hba hmul henc).2.1
   simpa [convertsColour, hpi, h3] using this
 
 /-- the one-pixel witness (Y, Cb, Cr) = (255, 0, 0): accepted, stored as `FF 00 00`, decoded as `conv [255,0,0]` -/
@@ -251,7 +277,7 @@ theorem counterexample_ybr_full (c : CodecImpl) (conv : List Int → List Int) (
     unfold encodeFrame; rw [hf]; rfl
   refine ⟨henc, ?_⟩
   have := ybr_full_decodes_converted c conv ybrWitnessP ybrWitnessX [255, 0, 0]
-    (by unfold Frame.WF ybrWitnessX; decide) (by decide) (by decide) rfl rfl henc
+    (by unfold Frame.WF ybrWitnessX; decide) (by decide) (by decide) (by decide) rfl rfl henc
   have e : ybrWitnessX.rows = 1 ∧ ybrWitnessX.cols = 1 ∧ ybrWitnessX.spp = 3 := ⟨rfl, rfl, rfl⟩
   rw [e.1, e.2.1, e.2.2] at this
   rw [this]
